@@ -207,7 +207,7 @@ pub mod dom {
     pub static mut IDCODE: [u16; MAXN] = [0; MAXN];          // 0 = no id attribute; otherwise a code of the id string
     pub static mut PARENT: [u8; MAXN] = [255; MAXN];
     pub static mut TEXT: [u8; MAXN] = [0; MAXN];             // index into TEXTS (leaf text)
-    pub const TEXTS: [&str; 25] = ["", ".", "\u{2026}", "+", "x", "1", "-", "-1", "arc", "sin", "arcsin", "|", "||", "\u{2016}", "\u{2212}", "\u{2212}1", "?", "AB", "A", "B", "\u{a0}", "_", "__", "___", "____"];
+    pub const TEXTS: [&str; 26] = ["", ".", "\u{2026}", "+", "x", "1", "-", "-1", "arc", "sin", "arcsin", "|", "||", "\u{2016}", "\u{2212}", "\u{2212}1", "?", "AB", "A", "B", "\u{a0}", "_", "__", "___", "____", "\u{2032}"];
     pub const NAMES: [&str; 13] = ["mi", "none", "mprescripts", "mmultiscripts", "mtext", "mrow", "mn", "mo", "msub", "mfrac", "mphantom", "msup", "msubsup"];
     #[derive(Clone, Copy, PartialEq, Eq, Debug)] pub struct Element<'a> { pub id: u8, pub p: PhantomData<&'a ()> }
     #[derive(Clone, Copy, PartialEq, Eq, Debug)] pub enum ChildOfElement<'a> { Element(Element<'a>) }
@@ -246,7 +246,7 @@ pub mod dom {
         /// leaf text is kept as an index into TEXTS (the strings the harnesses use); any other non-empty text becomes "?"
         pub fn set_text(&self, t: &str) {
             let code: u8 = match t { "" => 0, "." => 1, "\u{2026}" => 2, "+" => 3, "x" => 4, "1" => 5, "-" => 6, "-1" => 7, "arc" => 8, "sin" => 9, "arcsin" => 10,
-                "|" => 11, "||" => 12, "\u{2016}" => 13, "\u{2212}" => 14, "\u{2212}1" => 15, "AB" => 17, "A" => 18, "B" => 19, "\u{a0}" => 20, "_" => 21, "__" => 22, "___" => 23, "____" => 24, _ => 16 };
+                "|" => 11, "||" => 12, "\u{2016}" => 13, "\u{2212}" => 14, "\u{2212}1" => 15, "AB" => 17, "A" => 18, "B" => 19, "\u{a0}" => 20, "_" => 21, "__" => 22, "___" => 23, "____" => 24, "\u{2032}" => 25, _ => 16 };
             unsafe { TEXT[self.id as usize] = code; }
         }
         pub fn following_siblings(&self) -> KVec<ChildOfElement<'a>> {
